@@ -86,6 +86,10 @@ class Report:
         if text not in self.assumptions:
             self.assumptions.append(text)
 
+    def note(self, text):
+        if text not in self.notes:
+            self.notes.append(text)
+
     # ------------------------------------------------------------------ finishing
     def finish(self, explanation, checker_cmd=None, trusted_base=None, only=None):
         for rid, r in self.rules.items():
